@@ -3,6 +3,9 @@ import Exetera.Lemmas.GenKernelsJoinFlat
 import Exetera.Lemmas.GenKernelsJoinSize
 import Exetera.Lemmas.GenKernelsJoinInnerLU
 import Exetera.Lemmas.GenKernelsJoinInnerG
+import Exetera.Lemmas.GenKernelsJoinOld
+import Exetera.Lemmas.GenKernelsMapOld
+import Exetera.Lemmas.GenKernelsChunks
 /-!
   C19 over the TRANSLATED flat left-map kernels (`Gen/Kernels.lean`, regenerated from operations.py by tools/translate_njit.py on
   every run): `generate_ordered_map_to_left_both_unique`, `generate_ordered_map_to_left_right_unique`,
@@ -116,5 +119,129 @@ example : ordered_inner_map.run [1, 1, 2, 4, 4, 5] [1, 2, 2, 4, 6] [9, 9, 9, 9, 
     = .ok ([0, 1, 2, 2, 3, 4, 9], [0, 0, 1, 2, 3, 3]) := rfl
 example : ordered_inner_map_left_unique.run [1, 2, 4] [1, 2, 2, 4, 6] [9, 9, 9, 9, 9] [8, 8, 8, 8] 8
     = .ok ([0, 1, 1, 2, 9], [0, 1, 2, 3]) := rfl
+
+end Exetera.Props.C19Gen
+
+/-! ## KT4C — the two `_old` kernels of the legacy streamed forms of `Session.ordered_merge_left / _right`
+
+  `generate_ordered_map_to_left_right_unique_partial_old` (called by `generate_ordered_map_to_left_right_unique_streamed_old`) and
+  `ordered_map_valid_partial_old` (called by `ordered_map_valid_stream_old`; a function that ends in `while True:` and is left by
+  `return` only). `gen_*_ok`: transfer from the hand models `JoinOld.runPartialOld` / `JoinOld.partialOldMap`; `gen_*_call`: the
+  lemma the driver proofs rest on (`runPartialOld_spec`, `partialOldMapFrom_spec`), restated for the translated kernel. -/
+namespace Exetera.Props.C19Gen
+open Exetera Exetera.Spec Exetera.Join Exetera.JoinFlat Exetera.JoinOld Exetera.GenK Exetera.Gen.Kernels
+
+/-- every `.ok` run of the model `runPartialOld` (capacity = length of the caller's scratch array) is a run of the translated
+    kernel for every fuel ≥ len(left) + len(right): same `(i, j, unmapped)`, the scratch array = the model's written prefix
+    followed by the caller's untouched entries -/
+theorem gen_lru_partial_old_ok (dj : Nat) (left right result : List Int) (inv : Int) (t : PO) (fuel : Nat)
+    (hf : left.length + right.length ≤ fuel) (h : runPartialOld dj left right result.length inv = .ok t) :
+    generate_ordered_map_to_left_right_unique_partial_old.run (dj : Int) left right result inv fuel
+      = .ok ((t.i : Int), (t.j : Int), (t.unmapped : Int), t.buf ++ result.drop t.buf.length) :=
+  lru_partial_old_ok dj left right result inv t fuel hf h
+
+/-- **one call of the translated `…_partial_old` kernel as the legacy driver makes it** (driver invariant `SInv`: the views are
+    the unconsumed parts of the current chunks, sorted left keys, duplicate-free right keys, a scratch array of `chunksize`
+    slots): no subscript out of range or negative, it ends within len(lc) + len(rc) iterations with one of the two views
+    consumed, and driver output + the written prefix of the scratch array is the left join of the consumed left rows (`KInv`) -/
+theorem gen_lru_partial_old_call {L R : List Int} {cs : Nat} {inv : Int} {s : SO} (ltri : List Int) (hcap : ltri.length = cs)
+    (hL : Sorted L) (hR : R.Pairwise (· < ·)) (hS : SInv L R cs inv s) (fuel : Nat) (hf : s.lc.length + s.rc.length ≤ fuel) :
+    ∃ p : PO, generate_ordered_map_to_left_right_unique_partial_old.run (s.j : Int) s.lc s.rc ltri inv fuel
+        = .ok ((p.i : Int), (p.j : Int), (p.unmapped : Int), p.buf ++ ltri.drop p.buf.length) ∧
+      KInv L R inv s p ∧ (p.i = s.lc.length ∨ p.j = s.rc.length) := by
+  obtain ⟨p, hrun, hK, hend⟩ := runPartialOld_spec (cs := cs) (inv := inv) hL hR hS
+  rw [← hcap] at hrun
+  exact ⟨p, lru_partial_old_ok s.j s.lc s.rc ltri inv p fuel hf hrun, hK, hend⟩
+
+example : generate_ordered_map_to_left_right_unique_partial_old.run 10 [1, 2, 2, 5] [2, 3, 5] [7, 7, 7, 7, 7] (-1) 7
+    = .ok (4, 2, 1, [-1, 10, 10, 12, 7]) := rfl
+example : runPartialOld 10 [1, 2, 2, 5] [2, 3, 5] 5 (-1) = .ok ⟨4, 2, 1, [-1, 10, 10, 12]⟩ := by decide
+
+/-- every `.ok` run of the model `partialOldMap` (numeric column, the zeroed scratch array of `cap` slots the driver hands over) is
+    a run of the translated kernel for every fuel ≥ len(map_field), provided no valid map entry lies below the window start `d`
+    (the model wraps the negative subscript `data_field[val - d]`, the translation rejects it): it returns
+    `(len(values), val)` and the scratch array holds the model's values followed by the untouched zeros -/
+theorem gen_map_valid_partial_old_ok (d : Nat) (dfc mfc : List Int) (inv : Int) (cap : Nat) (r : List Int × Int) (fuel : Nat)
+    (hf : mfc.length ≤ fuel) (hpos : ∀ v ∈ mfc, v ≠ inv → (d : Int) ≤ v)
+    (h : partialOldMap d dfc mfc inv (0 : Int) cap = .ok r) :
+    ordered_map_valid_partial_old.run (d : Int) dfc mfc (List.replicate cap 0) inv fuel
+      = .ok ((r.1.length : Int), r.2, MapOld.bufOf cap r.1) :=
+  map_valid_partial_old_ok d dfc mfc inv cap r fuel hf hpos h
+
+/-- **one call of the translated `ordered_map_valid_partial_old` as the legacy mapper makes it** (data view
+    `dfc = data[d : d + len(dfc)]`, a non-empty map chunk that fits the zeroed scratch array, every valid entry a row of `data` not
+    below the view): no subscript out of range or negative; it returns the number `n` of map entries consumed and the last
+    entry looked at; the first `n` slots of the scratch array are the specified values (`Spec.mapSpec`) of the first `n` entries,
+    the rest is untouched; either the whole chunk was consumed (and the last entry is the marker or a row of the view) or it
+    stopped at a valid entry beyond the view and returns it -/
+theorem gen_map_valid_partial_old_call (data : List Int) (d : Nat) (dfc mfc : List Int) (inv : Int) (cap : Nat)
+    (hw : DWin data d dfc) (hne : mfc ≠ []) (hr : ∀ v ∈ mfc, v ≠ inv → (d : Int) ≤ v ∧ v < data.length)
+    (hcap : mfc.length ≤ cap) (fuel : Nat) (hf : mfc.length ≤ fuel) :
+    ∃ (ys : List Int) (last : Int),
+      ordered_map_valid_partial_old.run (d : Int) dfc mfc (List.replicate cap 0) inv fuel
+        = .ok ((ys.length : Int), last, ys ++ List.replicate (cap - ys.length) 0) ∧
+      ys.length ≤ mfc.length ∧ mapSpec data inv 0 (mfc.take ys.length) = some ys ∧
+      ((ys.length = mfc.length ∧ (last = inv ∨ last < ((d + dfc.length : Nat) : Int))) ∨
+        (∃ v, mfc[ys.length]? = some v ∧ v ≠ inv ∧ ((d + dfc.length : Nat) : Int) ≤ v ∧ last = v)) := by
+  cases mfc with
+  | nil => exact absurd rfl hne
+  | cons v vs =>
+    obtain ⟨ys, last, hrun, hle, hspec, hcase⟩ :=
+      partialOldMapFrom_spec data d dfc inv (0 : Int) cap hw (v :: vs) [] v hr (by simpa using hcap)
+    have hm : partialOldMap d dfc (v :: vs) inv (0 : Int) cap = .ok (ys, last) := by
+      simpa [partialOldMap] using hrun
+    have hg := map_valid_partial_old_ok d dfc (v :: vs) inv cap (ys, last) fuel hf (fun u hu hui => (hr u hu hui).1) hm
+    refine ⟨ys, last, ?_, hle, hspec, ?_⟩
+    · rw [hg, MapOld.bufOf_of_le cap ys (by omega)]
+    · rcases hcase with ⟨h1, _, h3⟩ | h
+      · exact Or.inl ⟨h1, h3 (by simp)⟩
+      · exact Or.inr h
+
+example : ordered_map_valid_partial_old.run 2 [30, 40, 50] [2, -1, 4, 4, 7] [0, 0, 0, 0, 0, 0] (-1) 5
+    = .ok (4, 7, [30, 0, 50, 50, 0, 0]) := rfl
+example : partialOldMap 2 [30, 40, 50] [2, -1, 4, 4, 7] (-1) (0 : Int) 6 = .ok ([30, 0, 50, 50], 7) := by decide
+example : DWin [10, 20, 30, 40, 50, 60, 70, 80] 2 [30, 40, 50] := ⟨by decide, fun k hk => by
+  rcases k with _ | _ | _ | k <;> simp at hk ⊢
+  omega⟩
+
+end Exetera.Props.C19Gen
+
+/-! ## KT4C — the generator `chunks(length, chunksize)` the legacy streamed drivers iterate over
+
+  A generator is translated as the function returning the lists of the values it yields until exhaustion (starts, ends).
+  `GenK.chunkList` iterates the hand model `JoinOld.nextRange` (`next(it)`), which the driver models of C19 call. -/
+namespace Exetera.Props.C19Gen
+open Exetera Exetera.JoinOld Exetera.GenK Exetera.Gen.Kernels
+
+/-- for every length and every `chunksize ≥ 1` the translated generator is exhausted within `length` iterations and yields exactly
+    the ranges obtained by iterating the hand model `nextRange` from 0 -/
+theorem gen_chunks_eq (len cs : Nat) (hcs : 1 ≤ cs) (fuel : Nat) (hf : len ≤ fuel) :
+    chunks.run (len : Int) (cs : Int) fuel
+      = .ok ((chunksOf len cs).map (fun p => (p.1 : Int)), (chunksOf len cs).map (fun p => (p.2 : Int))) :=
+  chunks_run_eq len cs hcs fuel hf
+
+/-- a length that is not positive yields nothing (any chunk size, any fuel) -/
+theorem gen_chunks_empty (len cs : Int) (hlen : len ≤ 0) (fuel : Nat) : chunks.run len cs fuel = .ok ([], []) :=
+  chunks_run_empty len cs hlen fuel
+
+/-- **the yielded ranges partition `[0, length)`**: read one after the other they enumerate the rows `0, …, length - 1` exactly
+    once and in order, and every range is non-empty, at most `chunksize` long and inside the column -/
+theorem gen_chunks_partition (len cs : Nat) (hcs : 1 ≤ cs) :
+    (chunksOf len cs).flatMap (fun p => List.range' p.1 (p.2 - p.1)) = List.range len ∧
+      ∀ p ∈ chunksOf len cs, p.1 < p.2 ∧ p.2 ≤ p.1 + cs ∧ p.2 ≤ len := by
+  refine ⟨?_, fun p hp => (chunkList_bounds len cs hcs len 0 p hp).2⟩
+  rw [chunksOf, chunkList_partition len cs hcs len 0 (Nat.zero_le _) (by omega), List.range_eq_range']
+  rfl
+
+/-- the first range is what the drivers' `next(it, (0, 0))` returns, and each further one is `nextRange` at the previous end -/
+example (len cs n cur : Nat) :
+    chunkList len cs (n + 1) cur
+      = match nextRange cur len cs with
+        | none => []
+        | some (a, b) => (a, b) :: chunkList len cs n b := rfl
+
+example : chunks.run 10 4 10 = .ok ([0, 4, 8], [4, 8, 10]) := rfl
+example : chunksOf 10 4 = [(0, 4), (4, 8), (8, 10)] := by decide
+example : chunks.run 3 0 50 = .error .outOfFuel := rfl      -- chunksize 0 never advances: the generator does not end
 
 end Exetera.Props.C19Gen
